@@ -8,6 +8,10 @@
  *   -> ok <text-hex>+ | err Load <index> | err Compile | err NoModule <name>
  * Imports/includes are resolved from the same units by an import callback, so every load order is possible; a module
  * that is already in the context (pulled in as an import) is made implemented with its features instead of re-parsed.
+ *   cdump <explicit 0|1> <order> <print> <features-hex> <unit>+   (same arguments as load)
+ *   -> ok (M:<module> <node>*)+ | err Fail      one token per compiled node in DFS order (walk of lysc_node):
+ *        path|kind|W/R|status 1-3|M/-|P/-|defaults|min|max|base:range|units|#when      — the canonical dump that
+ *        lean/LyModel/Compile/Drv.lean prints for the same schema value (tools/checks/c11exp.py renders it to YANG)
  *   validate <unit>+ <features-hex> <data-xml-hex>+   (same context, immediate compile, units loaded in the given order)
  *   -> ok <verdict bits> : '1' = lyd_parse_data_mem(LYD_XML, LYD_PARSE_STRICT | LYD_PARSE_ONLY) + lyd_validate_all() succeeded */
 #define _GNU_SOURCE
@@ -117,6 +121,76 @@ load_unit(struct ly_ctx *ctx, int k)
     return rc;
 }
 
+/* ---- canonical dump of the compiled tree (op cdump) ---- */
+static void
+dump_range(const struct lysc_range *r, int is_unsigned)
+{
+    LY_ARRAY_COUNT_TYPE u;
+
+    if (!r) { fputs("-", stdout); return; }
+    LY_ARRAY_FOR(r->parts, u) {
+        if (u) fputc(',', stdout);
+        if (is_unsigned) printf("%llu..%llu", (unsigned long long)r->parts[u].min_u64, (unsigned long long)r->parts[u].max_u64);
+        else printf("%lld..%lld", (long long)r->parts[u].min_64, (long long)r->parts[u].max_64);
+    }
+}
+
+static void
+dump_type(const struct lysc_type *t)
+{
+    switch (t->basetype) {
+    case LY_TYPE_INT8: fputs("int8:", stdout); dump_range(((struct lysc_type_num *)t)->range, 0); break;
+    case LY_TYPE_INT16: fputs("int16:", stdout); dump_range(((struct lysc_type_num *)t)->range, 0); break;
+    case LY_TYPE_INT32: fputs("int32:", stdout); dump_range(((struct lysc_type_num *)t)->range, 0); break;
+    case LY_TYPE_UINT8: fputs("uint8:", stdout); dump_range(((struct lysc_type_num *)t)->range, 1); break;
+    case LY_TYPE_UINT16: fputs("uint16:", stdout); dump_range(((struct lysc_type_num *)t)->range, 1); break;
+    case LY_TYPE_UINT32: fputs("uint32:", stdout); dump_range(((struct lysc_type_num *)t)->range, 1); break;
+    case LY_TYPE_STRING: fputs("string:", stdout); dump_range(((struct lysc_type_str *)t)->length, 1); break;
+    case LY_TYPE_BOOL: fputs("boolean:-", stdout); break;
+    default: printf("other%d:-", (int)t->basetype); break;
+    }
+}
+
+static void
+dump_node(const struct lysc_node *n, const char *prefix)
+{
+    char path[2048];
+    const struct lysc_node *c;
+    const char *kind = lys_nodetype2str(n->nodetype), *units = NULL;
+    struct lysc_when **whens = lysc_node_when(n);
+    unsigned long min = 0, max = 0;
+    LY_ARRAY_COUNT_TYPE u;
+
+    snprintf(path, sizeof path, "%s/%s:%s", prefix, n->module->name, n->name);
+    printf(" %s|%s|%c|%d|%c|%c|", path, kind, (n->flags & LYS_CONFIG_W) ? 'W' : 'R',
+            (n->flags & LYS_STATUS_CURR) ? 1 : (n->flags & LYS_STATUS_DEPRC) ? 2 : (n->flags & LYS_STATUS_OBSLT) ? 3 : 0,
+            (n->flags & LYS_MAND_TRUE) ? 'M' : '-', ((n->nodetype == LYS_CONTAINER) && (n->flags & LYS_PRESENCE)) ? 'P' : '-');
+    if (n->nodetype == LYS_LEAF) {
+        const struct lysc_node_leaf *l = (const struct lysc_node_leaf *)n;
+
+        fputs(l->dflt ? lyd_value_get_canonical(n->module->ctx, l->dflt) : "-", stdout);
+        units = l->units;
+    } else if (n->nodetype == LYS_LEAFLIST) {
+        const struct lysc_node_leaflist *l = (const struct lysc_node_leaflist *)n;
+
+        if (!l->dflts) fputs("-", stdout);
+        LY_ARRAY_FOR(l->dflts, u) {
+            if (u) fputc(',', stdout);
+            fputs(lyd_value_get_canonical(n->module->ctx, l->dflts[u]), stdout);
+        }
+        units = l->units; min = l->min; max = l->max;
+    } else {
+        fputs("-", stdout);
+        if (n->nodetype == LYS_LIST) { min = ((const struct lysc_node_list *)n)->min; max = ((const struct lysc_node_list *)n)->max; }
+    }
+    if (max == UINT32_MAX) max = 0;
+    printf("|%lu|%lu|", min, max);
+    if (n->nodetype & (LYS_LEAF | LYS_LEAFLIST)) dump_type(((const struct lysc_node_leaf *)n)->type); else fputs("-", stdout);
+    if (units) printf("|=%s", units); else fputs("|~", stdout);
+    printf("|%u", (unsigned)LY_ARRAY_COUNT(whens));
+    LY_LIST_FOR(lysc_node_child(n), c) dump_node(c, path);
+}
+
 int
 main(void)
 {
@@ -127,8 +201,8 @@ main(void)
         const char *id = r.tok[0], *op = r.ntok > 2 ? r.tok[2] : "";
 
         if (r.ntok < 3) { vp_reply(r.ntok ? id : "?", "err BadLine"); continue; }
-        if (!strcmp(op, "load") && r.ntok >= 8) {
-            int explicit = atoi(r.tok[3]), failed = 0;
+        if ((!strcmp(op, "load") || !strcmp(op, "cdump")) && r.ntok >= 8) {
+            int explicit = atoi(r.tok[3]), failed = 0, dump = !strcmp(op, "cdump");
             char *order = strdup(r.tok[4]), *print = strdup(r.tok[5]), *fs = vp_unhex(r.tok[6], NULL), *so = NULL, *o;
             struct ly_ctx *ctx = NULL;
 
@@ -141,10 +215,30 @@ main(void)
                 int k = atoi(o);
 
                 if (k < 0 || k >= nunits || units[k].kind != 'm') { vp_reply(id, "err BadArg"); failed = 1; break; }
-                if (load_unit(ctx, k)) { vp_reply(id, "err Load %d", k); failed = 1; }
+                if (load_unit(ctx, k)) { if (dump) vp_reply(id, "err Fail"); else vp_reply(id, "err Load %d", k); failed = 1; }
             }
-            if (!failed && explicit && ly_ctx_compile(ctx)) { vp_reply(id, "err Compile"); failed = 1; }
-            if (!failed) {
+            if (!failed && explicit && ly_ctx_compile(ctx)) { vp_reply(id, dump ? "err Fail" : "err Compile"); failed = 1; }
+            if (!failed && dump) {
+                char *sp = NULL, *p;
+                const struct lys_module *ms[VP_MAXTOK];
+                int n = 0, i;
+
+                for (p = strtok_r(print, ",", &sp); p; p = strtok_r(NULL, ",", &sp)) {
+                    ms[n] = ly_ctx_get_module_implemented(ctx, p);
+                    if (!ms[n]) { vp_reply(id, "err NoModule %s", p); failed = 1; break; }
+                    n++;
+                }
+                if (!failed) {
+                    vp_begin(id, "ok");
+                    for (i = 0; i < n; i++) {
+                        const struct lysc_node *c;
+
+                        printf(" M:%s", ms[i]->name);
+                        LY_LIST_FOR(ms[i]->compiled ? ms[i]->compiled->data : NULL, c) dump_node(c, "");
+                    }
+                    vp_end();
+                }
+            } else if (!failed) {
                 char *sp = NULL, *p;
                 char *texts[VP_MAXTOK];
                 int n = 0, i;
